@@ -18,6 +18,7 @@ From Coq Require Import ZArith List Bool.
 From FT Require Import Base.Dict Model.Edit Model.EditExec Proofs.EditInv Proofs.EditSeg Proofs.EditFresh Proofs.EditSegExample.
 From FT Require Proofs.EditWFEdge.
 From FT Require Gen.History_gen Proofs.HistoryGen Props.C02.
+From FT Require Proofs.EditBook Proofs.EditWFNode.
 Import ListNotations.
 Open Scope Z_scope.
 
@@ -102,6 +103,18 @@ Theorem C09_history_is_generated : forall st a dA,
    end).
 Proof. exact FT.Props.C02.C02_edit_machine_uses_generated. Qed.
 
+(* ---- the same with the node calls: every state reachable from a well-formed state by any sequence, of
+        any length, of UserAddNode / UserDeleteNode / edge-level calls (accepted or refused) satisfies the
+        complete invariant WF, provided each UserAddNode respects its documented preconditions at the moment
+        it is made (op_pre: integer time / track id, no caller-supplied lineage id, and - with a
+        segmentation - a non-zero id and pixels of the node's own frame that are background; the three
+        accepted-but-invariant-breaking calls of Proofs/EditWFNodeExample.v show each part is needed) ---- *)
+Theorem C09_run_node_calls : forall ops st,
+  forallb EditWFNode.node_fragment ops = true -> WF st -> EditBook.rp_disjoint st ->
+  (forall pre o post, ops = pre ++ o :: post -> EditWFNode.op_pre (run st pre) o) ->
+  WF (run st ops).
+Proof. exact EditWFNode.run_node_WF. Qed.
+
 Example C09_ex0_fresh :
   seg ex0 = Some sg0 /\ iou_act (ft ex0) = true /\ iou_fresh ex0 /\ W_seg ex0 /\ nodes_sane ex0 sg0 /\ edges_sane ex0 /\
   edge ex0 2 4 /\ iou_of ex0 sg0 2 4 = VIou 1 3 /\ iou_of ex0 sg0 1 3 = VIou 0 1.
@@ -139,3 +152,4 @@ Print Assumptions C09_fresh_add_node.
 Print Assumptions C09_fresh_other.
 Print Assumptions C09_run_edge_calls.
 Print Assumptions C09_history_is_generated.
+Print Assumptions C09_run_node_calls.
